@@ -242,7 +242,8 @@ PROPS = {
         modules=["pd_actor"],
         contracts=[f"{PDA}._process_request", f"{PDA}._process_request#from_run", f"{PDA}._handle_task_completion", f"{PDA}._run"],
         lemmas=[],
-        bounded=[],
+        bounded=[dict(kind="native_script", name="real PowerDistributingActor with a gated probe manager: seeded schedules of requests, "
+                                                 "completions (also failing ones) and same-iteration arrivals", module="native.explore_scheduler")],
         level="proof",
         explanation="The actor's three pieces are verified as atomic steps (none of them awaits between reading and writing the "
                     "two dicts): _process_request starts exactly one distribution and is only legal when none is in flight for "
